@@ -28,6 +28,7 @@ def run(ctx):
     from engine.common import check_harness_errors
 
     seeds_done = []
+    backend_diff: dict = {}
     rows = []
     orders = set()
     batch = 0
@@ -39,11 +40,16 @@ def run(ctx):
         check_harness_errors(res)
         for seed, out in res:
             seeds_done.append(seed)
-            for vid, var, h, it in out:
+            for vid, var, h, it, hb in out:
                 rows.append((vid, var, seed, h))
+                if hb != h and not h.startswith("ERR"):
+                    backend_diff.setdefault(vid.split(":")[0], (vid, var, seed, h, hb))
                 if it is not None:
                     orders.add(it)
         batch += 1
+    for kind_, (vid, var, seed, h, hb) in backend_diff.items():
+        ctx.violation(f"recorded-under-another-hash:{kind_}", {"value": vid, "variant": var, "seed": seed},
+                      f"{vid} (insertion order {var}, seed {seed}): value hash {h[:8]}, but the backend would record it under {hb[:8]} (get_hash(data=serialize()))")
     by_val = defaultdict(lambda: defaultdict(list))
     for vid, var, seed, h in rows:
         by_val[vid][h].append((var, seed))
